@@ -205,7 +205,8 @@ func ObjectToBag(s *slip.Scope, obj slip.Object, depth int) (v any) {
 			slip.TypePanic(s, depth, "value", val, "nil", "t", ":false", "integer", "float", "string", "symbol", "gi::time",
 				"list", "hash-table", "bag-instance")
 		}
-		v = val.Any
+		// A copy, the bag given as the value keeps its data to itself.
+		v = dupTree(val.Any)
 	default:
 		v = val.Simplify()
 	}
